@@ -6,6 +6,7 @@ import (
 	"fmt"
 	"sort"
 	"strings"
+	"sync"
 
 	"github.com/nyaruka/gocommon/jsonx"
 	"github.com/nyaruka/goflow/envs"
@@ -32,6 +33,8 @@ type XObject struct {
 
 	marshalDefault    bool
 	marshalDeprecated bool
+
+	initOnce sync.Once // objects can be shared between sessions (e.g. package level values) so lazy init must be safe
 }
 
 // NewXObject returns a new object with the given properties
@@ -223,19 +226,21 @@ func (x *XObject) hasDefault() bool {
 }
 
 func (x *XObject) ensureInitialized() {
-	if x.props == nil {
-		props := x.source()
+	x.initOnce.Do(func() {
+		if x.props == nil {
+			props := x.source()
 
-		x.def = x
-		x.props = make(map[string]XValue, len(props))
-		for p, v := range props {
-			if p == serializeDefaultAs {
-				x.def = v
-			} else {
-				x.props[p] = v
+			x.def = x
+			x.props = make(map[string]XValue, len(props))
+			for p, v := range props {
+				if p == serializeDefaultAs {
+					x.def = v
+				} else {
+					x.props[p] = v
+				}
 			}
 		}
-	}
+	})
 }
 
 // XObjectEmpty is the empty empty
